@@ -324,6 +324,11 @@ def gen_script(t):
 
 
 # ---------------------------------------------------------------------------
+def hash_line(ln):
+    import zlib
+    return zlib.crc32(ln.encode())
+
+
 def run_driver(path, script, timeout=60):
     env = dict(os.environ)
     env["ASAN_OPTIONS"] = "detect_leaks=0:abort_on_error=0:exitcode=99"
@@ -518,5 +523,7 @@ def run_one(batch, tape, ctx):
                        "rtti-registry-cleared": sum(1 for c, e in ops if e["op"] == "wsp" and e.get("expect") == "error"),
                        "unload": sum(1 for c, e in ops if e["op"] == "unload")},
             "probes": probes, "steps": len(ops),
+            "state_fps": sorted({hash_line(ln) for ln in lines if ln.startswith("stat ")})[:64],
+            "interleaving": hashlib.sha256(" ".join(c.split()[0] for c, _ in ops).encode()).hexdigest()[:16],
             "sample": {"script": [c for c, _ in ops][:40], "results": lines[:40]},
             "trace": ["%s -> %s" % (c, ln) for (c, _), ln in zip(ops, lines)][-40:] if viol else None}
